@@ -323,6 +323,19 @@ theorem fixed_rows_consistent :
     ∀ r ∈ optimizers, ∃ t ∈ templates, t.tag = r.tag ∧ guardWithinArity r t = true ∧ asmShapeOk r t = true := by
   decide +kernel
 
+/-! ### call-site selection: nil fast paths of `if` / `while` -/
+
+/-- ★ the four nil fast paths regenerated from specials.c name equality-family rows with the matching jump sense -/
+theorem nil_fast_paths_consistent : nilFastPaths.length = 4 ∧ nilFastPaths.all nilPathOk = true := by
+  decide +kernel
+
+/-- what the fast path relies on: `(= nil x)` / `(= x nil)` is true exactly when `x` is nil, `not=` the opposite, so testing the
+    operand with jump-if-(not-)nil decides the condition the specialised (and the generic) comparison would compute -/
+theorem nil_condition_value (hnil : ∀ x, P.eqv P.nil x = P.isNil x ∧ P.eqv x P.nil = P.isNil x) (x : P.V) :
+    binop P .equals P.nil x = M.pure (ofBool P (P.isNil x)) ∧ binop P .equals x P.nil = M.pure (ofBool P (P.isNil x)) ∧
+    binop P .notEquals P.nil x = M.pure (ofBool P (!P.isNil x)) ∧ binop P .notEquals x P.nil = M.pure (ofBool P (!P.isNil x)) := by
+  refine ⟨?_, ?_, ?_, ?_⟩ <;> simp [binop, binopK, kindOf, (hnil x).1, (hnil x).2]
+
 /-! ### clean-up passes (statements proved in Bytecode/VMPasses.lean) -/
 
 open JanetModel.Bytecode.VMPasses in
